@@ -358,7 +358,8 @@ class SingularityCutter(Worker):
 
         singuls_attr = self._cut_graph.vertices.create_attribute("selection", bool)
         for x in self.singularities:
-            singuls_attr[new_v_id[x]] = True
+            if x in new_v_id: # a singularity is not on the cut graph when nothing was cut (sphere with < 2 singularities)
+                singuls_attr[new_v_id[x]] = True
         self._cut_graph = PolyLine(self._cut_graph)
 
     def _build_mesh_with_cuts(self):
